@@ -108,6 +108,46 @@ fn reader_counters_lim(o: &mut Out, name: &str, bytes: &[u8], sc: &[usize], path
     }
 }
 
+/// a reader that stalls (Err(WouldBlock) / Err(Interrupted) from fill_buf) when the bytes visible so far are used up: every public call must
+/// RETURN (the I/O error) instead of polling the stalled reader again and again
+fn stalled_reader_cases(o: &mut Out, rng: &mut Rng, thorough: bool) {
+    for k in 0..(if thorough { 400 } else { 40 }) {
+        let b = valid_file(rng, &GenOpts { maxw: 9, maxh: 7, anc: k % 2 == 0, animated: Some(k % 3 == 0) });
+        let bytes = b.bytes.clone();
+        for _ in 0..(if thorough { 8 } else { 4 }) {
+            let cut = rng.range(0, bytes.len() as u64 - 1) as usize;
+            let kind = 1 + (rng.below(4) == 0) as u8;   // mostly WouldBlock
+            for path in 0..4u32 {
+                o.mark(&format!("stalled reader kind={} cut={} path={} {} {}", kind, cut, path, b.name, hex(&bytes)));
+                let pr = PieceReader::new(bytes.clone(), &[*rng.pick(&[0usize, 1, 7])]);
+                pr.visible.set(cut);
+                pr.stall.set(kind);
+                let polls = pr.max_stall_polls.clone();
+                let res = guarded(|| -> String {
+                    let dec = open_decoder(pr, Opts::default(), 0, None);
+                    if path == 3 {
+                        let mut dec = dec;
+                        return match dec.read_header_info() { Ok(_) => "header-ok".into(), Err(e) => res_err(&e) };
+                    }
+                    let mut rd = match dec.read_info() { Ok(r) => r, Err(e) => return res_err(&e) };
+                    match path {
+                        0 => { for _ in 0..6 { let (r, px) = do_next_frame(&mut rd, 0); if px.is_none() { return r; } } "frames".into() }
+                        1 => { for _ in 0..200 { match rd.next_row() { Ok(Some(_)) => {}, Ok(None) => return "rows-done".into(), Err(e) => return res_err(&e) } } "rows".into() }
+                        _ => match rd.finish() { Ok(()) => "finish-ok".into(), Err(e) => res_err(&e) },
+                    }
+                });
+                o.direct_checks += 1;
+                o.count("stalled-reader");
+                let txt = match &res { Ok(t) => t.clone(), Err(m) => format!("PANIC {}", m) };
+                if polls.get() > 8 || txt.contains("SPIN") {
+                    o.violation(viol("decoder-keeps-polling-a-stalled-reader", vec![("file", jstr(&b.name)), ("bytes", jstr(&hex(&bytes))), ("visible", cut.to_string()), ("kind", kind.to_string()),
+                        ("path", path.to_string()), ("consecutive_polls", polls.get().to_string()), ("result", jstr(&txt))]));
+                }
+            }
+        }
+    }
+}
+
 /// a highly compressible image: `h` rows of `w` gray8 zero pixels, one or many IDATs
 fn bomb(w: u32, h: u32, rng: &mut Rng) -> Vec<u8> {
     let raw = vec![0u8; (w as usize + 1) * h as usize];
@@ -238,6 +278,7 @@ pub fn run(a: &Args) {
         }
     }
     o.mark("done");
+    stalled_reader_cases(&mut o, &mut rng, thorough);
     o.finish();
 }
 
